@@ -316,9 +316,6 @@ class MUSE(BaseClassifier):
         X_copy = X.copy()
         for column in X.columns:
             X_copy[str(column) + "_diff"] = X_copy[column]
-            for ts in X[column]:
-                ts_diff = ts.diff(1)
-                ts.replace(ts_diff)
         return X_copy
 
     def compute_window_inc(self, series_length):
